@@ -114,7 +114,7 @@ func ruleFrmChecks(c *Ctx, r *R) {
 		cs := condStrings(p)
 		inv := effIndex(p, isInvoke)
 		if inv < 0 {
-			if p.Done == "panic" && strings.Contains(cs, "(xArgs != ft.Args)") && !strings.Contains(cs, "!(xArgs != ft.Args)") {
+			if p.Done == "panic" && strings.Contains(cs, "(xArgs != ft.Args)") {
 				argPanic++
 			} else {
 				r.fail("args-check", pos, "a path of callReady returns without invoking the function and without the argument-count panic: "+cs)
@@ -327,7 +327,7 @@ func ruleLayFunc(c *Ctx, r *R) {
 				nargs = v.String()
 			}
 		}
-		neg := strings.Contains(cs, "< 0") && !strings.Contains(cs, "!(")
+		neg := strings.Contains(cs, "< 0")
 		wantN := "splitParams(v.frame.Codes[v.frame.N].A)#0"
 		if neg {
 			wantN = "<-" + wantN + ">"
